@@ -111,10 +111,10 @@ def ci_string_facts(check: Check, repo: Repo) -> None:
     flags = _flag_names(flags_e) if flags_e is not None else set()
     if flags is None:
         raise AnalysisError(f"{construct}: flags `{ast.unparse(flags_e)}` are not a plain union of re flags")
-    ok = flags == {"I"}
-    sig = "CIString is not compiled with exactly re.I"
-    check.oblige("CASE", construct, "flags are exactly re.I (simple, one-to-one case folding)" if ok else sig, ok,
-                 finding=Finding("CASE", construct, sig, f"flags {sorted(flags)}: without re.I case is not ignored; with VERSION1/FULLCASE a literal matches text of another length (\"strasse\" ~ \"Stra\u00dfe\"), and the interpreter advances by len(value)", {"flags": sorted(flags)}))
+    ok = flags == {"I", "A"}
+    sig = "CIString is not compiled with exactly re.I | re.A"
+    check.oblige("CASE", construct, "flags are exactly re.I | re.A (pest ignores the case of ASCII letters only; one-to-one folding)" if ok else sig, ok,
+                 finding=Finding("CASE", construct, sig, f"flags {sorted(flags)}: without re.I case is not ignored; without re.A non-ASCII characters fold too (\"k\" ~ U+212A), which pest does not do and the optimizer's character class does not reproduce; with VERSION1/FULLCASE a literal matches text of another length (\"strasse\" ~ \"Stra\u00dfe\") while the interpreter advances by len(value)", {"flags": sorted(flags)}))
     parse = repo.func(TERMINALS, "CIString.parse")
     adv = [n for n in ast.walk(parse) if isinstance(n, (ast.AugAssign, ast.Assign)) and "state.pos" in ast.unparse(n.target if isinstance(n, ast.AugAssign) else n.targets[0])]
     texts = [ast.unparse(n) for n in adv]
@@ -137,17 +137,19 @@ def range_and_case(check: Check, repo: Repo) -> None:
     st = ast.unparse(repo.func(TERMINALS, "String.parse"))
     ok = "re.I" not in st and "lower()" not in st and "upper()" not in st and "casefold" not in st
     check.oblige("CASE", f"{TERMINALS}::String.parse", "sensitive literals are compared exactly" if ok else "String.parse folds case", ok)
-    # .upper()/.lower() into a character class only under a length-1 guard
-    bop = repo.func(CHOICE_REL, "build_optimized_pattern")
-    for n in ast.walk(bop):
-        if isinstance(n, ast.match_case):
-            body_src = "\n".join(ast.unparse(s) for s in n.body)
-            if ".upper()" in body_src or ".lower()" in body_src:
-                g = ast.unparse(n.guard) if n.guard is not None else ""
-                ok = "len(val.upper()) == 1" in g and "len(val.lower()) == 1" in g and "len(val) == 1" in g
-                check.oblige("CASE", f"{CHOICE_REL}::build_optimized_pattern", "case variants enter the character class only when they are single characters" if ok else "val.upper()/val.lower() enter the character class without a length-1 guard", ok, sample=True,
-                             finding=Finding("CASE", f"{CHOICE_REL}::build_optimized_pattern", "val.upper()/val.lower() enter the character class without a length-1 guard", "\"ß\".upper() == \"SS\": ord() of it raises, or a two-character string lands in a class", {}))
-                check.count("case_fold_sites")
+    # case variants in a squashed choice: decided end to end on the model (k / K / U+212A; sa/squashsem.py)
+    from ..squashsem import check_squash
+
+    construct = f"{CHOICE_REL}::build_optimized_pattern"
+    n, squashed, bad = check_squash(repo, construct, ["k", "K", "\u212a", "\u00df"], 1, False)
+    check.count("case_fold_sites", squashed)
+    cats: dict[str, list[str]] = {}
+    for cat, msg in bad:
+        cats.setdefault(cat, []).append(msg)
+    check.oblige("CASE", construct, f"a squashed choice accepts exactly the ASCII case variants of its insensitive literals ({squashed} rewritten model choices)" if not bad else f"{len(bad)} of {squashed} rewritten model choices disagree (per category below)", True, sample=True)
+    for cat, msgs in sorted(cats.items()):
+        sig = f"a squashed choice does not accept exactly what its literals accept: {cat}"
+        check.oblige("CASE", construct, sig, False, sample=True, finding=Finding("CASE", construct, sig, f"{sig}: e.g. {msgs[0]}", {"witness": msgs[0]}))
 
 
 def merge_arithmetic(check: Check, repo: Repo, tier: str = "quick") -> None:
